@@ -73,6 +73,28 @@ example (σ : Store) (f : Nat) (a b c : Value) (hc : isAtomic c = true) :
   rw [(list_format σ (f + 2) a (.pair b c)).2.1, (list_format σ (f + 1) b c).2.2.2.1,
     (list_format σ f b c).2.2.2.2 hc]
 
+/-- the sample `(1 -1/2 #\\a (x . y) #(#t ()))` is its five elements, single spaces between -/
+example : Prim.display store 100000 value
+    = "(" ++ " ".intercalate ([.num (.int 1), .num (.rat (-1) 2), .char 'a',
+        .pair (.sym "x") (.sym "y"), .vec 1].map (Prim.display store 15)) ++ ")" := by
+  refine list_format_proper store 15 _ _ (fun y hy => ?_) 100000 (by decide)
+  have hr : Readable store y ∧ (datumOf store y).size ≤ 15 := by
+    simp only [List.mem_cons, List.not_mem_nil, or_false] at hy
+    rcases hy with rfl | rfl | rfl | rfl | rfl <;> exact ⟨by decide, by decide⟩
+  exact (enough_of_readableN store _ y hr.1).mono hr.2
+
+/-- `(x y . z)`: the dot appears exactly because the tail `z` is not a list -/
+example : Prim.display store 10 (consTail [.sym "x", .sym "y"] (.sym "z"))
+    = "(" ++ " ".intercalate [Prim.display store 1 (.sym "x"), Prim.display store 1 (.sym "y")]
+        ++ " . " ++ Prim.display store 1 (.sym "z") ++ ")" := by
+  have en : ∀ s, Enough store 1 (.sym s) := by
+    intro s f' hf'
+    obtain ⟨g, rfl⟩ : ∃ g, f' = g + 1 := ⟨f' - 1, by omega⟩
+    rfl
+  refine list_format_dotted store 1 _ _ _ (fun y hy => ?_) rfl (en _) 10 (by decide)
+  simp only [List.mem_cons, List.not_mem_nil, or_false] at hy
+  rcases hy with rfl | rfl <;> exact en _
+
 /-! ## 2. `display` writes the datum of the value, under the printer's layout -/
 
 /-- DISPLAY_IS_RENDER. For a readable value and enough fuel (at least the number of nodes of its
@@ -210,6 +232,11 @@ theorem read_back_number (σ : Store) (x : Num) (hv : Readable σ (.num x)) (d :
   simp only at hs
   rw [h1, hs]
 
+/-- `-1/2`, wherever it was written, comes back as the exact ratio `-1/2` -/
+example (τ : Store) : Eval.readLiteral τ (.prim (.rat (-1) 2) (some (3, 4)))
+    = (.ok (.num (.rat (-1) 2)), τ) :=
+  read_back_number store (.rat (-1) 2) (by decide) (.prim (.rat (-1) 2) (some (3, 4))) rfl τ
+
 /-- DISPLAY_QUOTE_READ_EQUAL (2 and 3 combined). The text `display` prints for a readable value
 is read as one datum `d`, and evaluating the expression `(quote d)` — in any store, environment
 and with any non-zero fuel — yields, without error, a value structurally equal to the one that
@@ -311,6 +338,19 @@ theorem display_eq_iff_equalV (σ₁ σ₂ : Store) (v₁ v₂ : Value) (h₁ : 
   · intro he
     have e := (equal_datumOf σ₁ σ₂ v₁ v₂ he h₁).2
     exact (equal_values_print_same σ₁ σ₂ v₁ v₂ he h₁ f₁ f₂ hf₁ (by rw [← e]; exact hf₂)).2.2
+
+section Example
+/-- the sample and the copy obtained by reading it back (its vector in the fresh cell 2) print
+the same text -/
+example : Prim.display store 100000 value = Prim.display store2 100000 value2 :=
+  (equal_values_print_same store store2 value value2 value_equal_value2 (by decide) 100000 100000
+    (by decide) (by decide)).2.2
+
+example : Prim.display store 100000 value = Prim.display store2 100000 value2 ↔
+    equalV store value store2 value2 :=
+  display_eq_iff_equalV store store2 value value2 (by decide) (by decide) 100000 100000
+    (by decide) (by decide)
+end Example
 
 /-! ## 6. Nested structure is preserved -/
 
@@ -466,9 +506,15 @@ theorem display_read_roundtrip_partial (σ : Store) (s : String) (fuel : Nat) (h
   rw [e] at h
   exact h
 
+example : ∃ d, Read.all (Prim.display store 1 (.sym "list->vector")).toList = ([d], none) ∧
+    d.strip = .sym "list->vector" none :=
+  display_read_roundtrip_partial store "list->vector" 1 (by decide) (by decide)
+
 /-- Strings are outside the property for the same reason: `display` writes the characters of a
 string without quotes, so the text does not read back as a string (`x y` reads as two symbols). -/
 theorem string_display_unquoted (σ : Store) (f : Nat) (s : String) :
     Prim.display σ (f + 1) (.str s) = s := rfl
+
+example : Prim.display store 7 (.str "x y") = "x y" := string_display_unquoted store 6 "x y"
 
 end Ruschm.C16
